@@ -828,23 +828,23 @@ impl Harness for H {
         // --- deadlines and intervals
         for variant in [Variant::Local, Variant::LocalSelect] {
             let less = (q && variant == Variant::LocalSelect) as usize;
-            v.push((Cfg { notification: false, deadline: true, intervals: 1, nodrain: true, ..cfg(variant, &[1]) }, plan(if q { 6 } else { 8 }, if q { 4 } else { 8 })));
+            v.push((Cfg { notification: false, deadline: true, intervals: 1, nodrain: true, ..cfg(variant, &[1]) }, plan(if q { 6 } else { 7 }, if q { 4 } else { 8 })));
             v.push((Cfg { notification: false, deadline: true, intervals: 1, ..cfg(variant, &[2]) }, plan(if q { 5 } else { 6 }, if q { 3 } else { 10 })));
             // mixed kinds, re-attachment with the other kind, attach twice with the other kind
             v.push((Cfg { deadline: true, intervals: 1, twice_other_kind: true, ..cfg(variant, &[1]) }, plan(if q { 6 - less } else { 7 }, if q { 8 } else { 12 })));
-            v.push((Cfg { deadline: true, twice_other_kind: true, ..cfg(variant, &[1, 1]) }, plan(if q { 4 } else { 6 }, if q { 2 } else { 10 })));
+            v.push((Cfg { deadline: true, twice_other_kind: true, ..cfg(variant, &[1, 1]) }, plan(if q { 4 } else { 5 }, if q { 2 } else { 10 })));
         }
         // --- listener re-creation between detach and re-attach (file descriptor number reuse)
         for variant in [Variant::Local, Variant::LocalSelect] {
-            v.push((Cfg { recreate: true, ..cfg(variant, &[1, 1]) }, plan(if q { 4 } else { 6 }, if q { 2 } else { 12 })));
+            v.push((Cfg { recreate: true, ..cfg(variant, &[1, 1]) }, plan(if q { 4 } else { 5 }, if q { 2 } else { 12 })));
         }
         v.push((Cfg { recreate: true, ..cfg(Variant::Ipc, &[1, 1]) }, plan(if q { 3 } else { 4 }, 7)));
         // --- three / four listeners
         v.push((cfg(Variant::Local, &[2, 1]), plan(if q { 5 } else { 6 }, if q { 6 } else { 12 })));
         if !q {
-            v.push((cfg(Variant::Local, &[2, 2]), plan(6, 12)));
+            v.push((cfg(Variant::Local, &[2, 2]), plan(6, 16)));
             v.push((Cfg { deadline: true, ..cfg(Variant::Local, &[3, 1]) }, plan(5, 12)));
-            v.push((cfg(Variant::LocalSelect, &[2, 2]), plan(6, 12)));
+            v.push((cfg(Variant::LocalSelect, &[2, 2]), plan(5, 12)));
         }
         // --- ipc (files, shared memory, unix datagram sockets): expensive, shallower
         v.push((Cfg { nodrain: true, notify_in_cb: true, ..cfg(Variant::Ipc, &[1]) }, plan(if q { 4 } else { 6 }, 7)));
@@ -855,11 +855,11 @@ impl Harness for H {
         // --- capacity (only reachable with the select reactor: FD_SETSIZE)
         v.push((
             Cfg { mode: Mode::Capacity { headroom: 1 }, deadline: true, intervals: 1, ..cfg(Variant::LocalSelect, &[1, 1]) },
-            plan(if q { 3 } else { 5 }, if q { 8 } else { 8 }),
+            plan(if q { 3 } else { 4 }, 8),
         ));
         v.push((
             Cfg { mode: Mode::Capacity { headroom: 2 }, deadline: true, intervals: 2, ..cfg(Variant::LocalSelect, &[2]) },
-            plan(if q { 3 } else { 5 }, if q { 8 } else { 8 }),
+            plan(if q { 3 } else { 4 }, 8),
         ));
         // --- expiry (real clock; kept out of the exhaustive part)
         for variant in [Variant::Local, Variant::LocalSelect] {
@@ -893,7 +893,40 @@ impl Harness for H {
     }
 }
 
+
+/// Domains of processes that no longer exist (a replayed violation is abandoned by the engine with
+/// `mem::forget`, a crashed worker cannot clean up): removed whenever a parent / replay process starts.
+fn remove_stale_domains(dir_prefix: &str, shm_tag: &str) {
+    if std::env::args().any(|a| a == "--job" || a == "--list") {
+        return;
+    }
+    let alive = |pid: &str| !pid.is_empty() && pid.chars().all(|c| c.is_ascii_digit()) && std::path::Path::new(&format!("/proc/{pid}")).exists();
+    if let Ok(rd) = std::fs::read_dir("/verif/.run") {
+        for e in rd.flatten() {
+            let name = e.file_name().to_string_lossy().to_string();
+            if let Some(rest) = name.strip_prefix(dir_prefix) {
+                let pid = rest.split('-').next().unwrap_or("");
+                if pid.chars().all(|c| c.is_ascii_digit()) && !pid.is_empty() && !alive(pid) {
+                    let _ = std::fs::remove_dir_all(e.path());
+                }
+            }
+        }
+    }
+    if let Ok(rd) = std::fs::read_dir("/dev/shm") {
+        for e in rd.flatten() {
+            let name = e.file_name().to_string_lossy().to_string();
+            if let Some(rest) = name.strip_prefix(shm_tag) {
+                let pid: String = rest.chars().take_while(|c| c.is_ascii_digit()).collect();
+                if rest[pid.len()..].starts_with('x') && !pid.is_empty() && !alive(&pid) {
+                    let _ = std::fs::remove_file(e.path());
+                }
+            }
+        }
+    }
+}
+
 fn main() {
     set_log_level(LogLevel::Fatal);
+    remove_stale_domains("h_waitset-", "hws");
     seqx::main(H);
 }
